@@ -3,7 +3,7 @@ from lib import core, propgen
 from harness.oracles import all as ALL
 
 ID = 'C14'
-UNITS = ['validators', 'adjust_intervals', 'io_wrappers', 'event_metrics', 'melody_metrics', 'melody_resample', 'transcription_scores', 'multipitch_metrics', 'seg_cluster_q', 'hier_measures', 'chord_evaluate', 'key_score', 'tempo_detection', 'alignment_scores', 'pattern_scores', 'beat_q']
+UNITS = ['validators', 'adjust_intervals', 'io_wrappers', 'event_metrics', 'melody_metrics', 'melody_resample', 'transcription_scores', 'multipitch_metrics', 'seg_cluster_q', 'hier_measures', 'chord_evaluate', 'key_score', 'tempo_detection', 'alignment_scores', 'pattern_scores', 'beat_q', 'sep_framewise']
 TRANSLATORS = []
 NOT_COVERED = ('exceptions raised inside NumPy/SciPy for values the models treat as ordinary (overflow, NaN inputs, object dtypes); metrics '
                'without a value model are covered at the entry-point level by the oracle only (sampling); the matcher model is total '
